@@ -35,6 +35,9 @@ def field_index(prog, name):
 
 
 def check(env, rep, tier):
+    include(rep, env, tier, "c06", ("C06.3", "C06.4", "C06.8", "C06.9"), "C13.6",
+            "'minimal-length unsigned integer, round trip of every triple': the Block value goes through the uint option codec - shortest "
+            "big-endian form out, every admissible length decoded exactly")
     configs = ["default"] if tier == "quick" else ["default", "udp"]
     rep.configs = configs
     for cfg in configs:
